@@ -118,6 +118,14 @@ def near_miss():
     return [b"/opt/mysnoopy.so", b"/lib/libsnoopy-extra.so", b"/lib/libsnoopy.s", b"/lib/LIBSNOOPY.SO", b"/lib/libsnoopy.so.1"]
 
 
+def adjacent(P):
+    """lines in which a rejected candidate of a search is directly followed by the next candidate (the case split "candidate rejected,
+    search continues right behind it" of find_entry_spec / noncomment_spec): copies of the path / of the needle back to back"""
+    L = b"libsnoopy.so"
+    return [P + P, b"#" + P + P, b"x" + P + P, P + b" " + P, P + P + b" " + P, P + b".bak" + P, b"#" + P + P + b" /b.so", P + b"x" + P + b"\t" + P,
+            b"#" + L + L, b"# x" + L + L + b" " + L, b"/b.so", b"", b"# c"]
+
+
 def alphabet19(P):
     return [b"/lib/foreign.so", b"# libsnoopy.so x libsnoopy.so x libsnoopy.so", b"", P, P + b" \t", P + b" # c " + P, P + b"#", P + b" /lib/other.so",
             P + b"\t/lib/b.so  /lib/c.so # c", b"/lib/other.so " + P, b"/opt/x/libsnoopy.so", P + b"x", P + b"\r", b" " + P, b"#" + P, P + b" " + P]
@@ -136,13 +144,16 @@ def files(alpha, maxlines):
 
 
 def random_files(rng, P, n, alpha):
-    frag = [b"libsnoopy.so", b"libsnoopy.s", b"snoopy.so", b"libsnoopy", P, P[:-1], b"#", b" ", b"\t", b"\r", b"/", b"a", b"lib", b".so", b":", b"\xc3\xa9", b"\x01", b"\xff"]
+    frag = [b"libsnoopy.so", b"libsnoopy.s", b"snoopy.so", b"libsnoopy", b"libsnoopy.solibsnoopy.so", P, P, P + P, b"#" + P + P, P[:-1], b"#", b" ", b"\t", b"\r", b"/", b"a", b"lib", b".so", b":", b"\xc3\xa9", b"\x01", b"\xff"]
     out = []
     for _ in range(n):
         nl = rng.choice([1, 2, 5, 8, 13, 40])
         ls = []
         for _ in range(nl):
-            if rng.random() < 0.7:
+            r = rng.random()
+            if r < 0.12:
+                ls.append(rng.choice(adjacent(P)))
+            elif r < 0.7:
                 ls.append(rng.choice(alpha))
             else:
                 ls.append(b"".join(rng.choice(frag) for _ in range(rng.randrange(0, 9))))
